@@ -13,7 +13,7 @@ CLASSES = {
     "torn": ["zero", "truncate", "tail", "dup_block", "open_construct", "open_construct"],
     "corrupt": ["flip", "bad_utf8", "nul", "bom8", "bom16", "crlf", "mixed_eol", "lone_cr", "ws_only", "binary", "escape_in_string"],
     "grammar": ["del_line", "dup_line", "del_token", "dup_token", "unbalance", "drop_close", "dedent",
-                "swap_ext", "shebang", "del_char", "dup_char", "del_punct", "stray_line", "truncate_line", "num_mangle", "num_mangle"],
+                "swap_ext", "shebang", "del_char", "dup_char", "del_punct", "stray_line", "truncate_line", "num_mangle", "num_mangle", "run_small", "run_small"],
     "blowup": ["nest", "chain", "long_line", "many_funcs", "deep_parens", "deep_list", "long_run", "long_run", "huge_number"],
 }
 KIND_CLASS = {k: c for c, ks in CLASSES.items() for k in ks}
@@ -71,6 +71,8 @@ def draw_fault(t, data: bytes, lang: str, allow_blowup: bool = True, force_blowu
         p = [t.pick([200, 1500, 6000, 20000], "fault.n")]
     elif kind == "long_line":
         p = [t.pick([5000, 100000, 1000000], "fault.n")]
+    elif kind == "run_small":
+        p = [t.pick([40, 300], "fault.n"), t.draw(12, "fault.shape"), t.draw(P, "fault.pos")]
     elif kind == "long_run":
         p = [t.pick([300, 2500, 9000], "fault.n"), t.draw(12, "fault.shape"), t.draw(P, "fault.pos")]
     elif kind == "huge_number":
@@ -241,7 +243,7 @@ def apply(f: dict, data: bytes, lang: str) -> bytes:
             return data
         m = lits[(p[0] * len(lits)) >> 20]
         return data[:m.start(1)] + esc + data[m.end(1):]
-    if k == "long_run":
+    if k in ("long_run", "run_small"):
         return _long_run(data, p[0], p[1], p[2], lang)
     if k == "huge_number":
         lit = [b"0x" + b"F" * p[0], b"9" * p[0], b"1" + b"0" * p[0] + b".5", b"0b" + b"1" * p[0]][p[1] % 4]
